@@ -22,7 +22,7 @@ Theorem C08_generated_orders :
   meta_uploader_holds_guard = true /\ enc_uploader_holds_guard = true /\
   meta_copy_holds_guard = true /\ enc_copy_holds_guard = true /\
   guard_registers = true /\ guard_drop_unregisters = true /\
-  gc_recheck_reads_backend = true /\ cfg_of gc_sweep = full.
+  gc_recheck_reads_backend = true /\ cfg_of gc_sweep gc_recheck_unconditional = full.
 Proof. repeat split; try reflexivity. repeat constructor. Qed.
 Print Assumptions C08_generated_orders.
 
@@ -122,10 +122,10 @@ Theorem C08_gc_safe :
   forall (b : bstore) (u : list gen) (acts : list action) (s : sys),
     (forall k, rd_good (kread k b) = true) ->
     (forall k g, bget b (PGen k g) <> None -> In g u) ->
-    run (cfg_of gc_sweep) (mkSys b [] u [] [] None) acts = Some s ->
+    run (cfg_of gc_sweep gc_recheck_unconditional) (mkSys b [] u [] [] None []) acts = Some s ->
     forall k, rd_good (kread k (st s)) = true.
 Proof.
-  intros b u acts s G U R. change (cfg_of gc_sweep) with full in R.
+  intros b u acts s G U R. change (cfg_of gc_sweep gc_recheck_unconditional) with full in R.
   apply (inv_good _ (inv_run acts _ _ (inv_init b u G U) R)).
 Qed.
 Print Assumptions C08_gc_safe.
@@ -135,11 +135,11 @@ Theorem C08_gc_delete_invisible :
   forall (b : bstore) (u : list gen) (acts : list action) (s s' : sys),
     (forall k, rd_good (kread k b) = true) ->
     (forall k g, bget b (PGen k g) <> None -> In g u) ->
-    run (cfg_of gc_sweep) (mkSys b [] u [] [] None) acts = Some s ->
-    exec (cfg_of gc_sweep) s AGcDelete = Some s' ->
+    run (cfg_of gc_sweep gc_recheck_unconditional) (mkSys b [] u [] [] None []) acts = Some s ->
+    exec (cfg_of gc_sweep gc_recheck_unconditional) s AGcDelete = Some s' ->
     forall k, kread k (st s') = kread k (st s).
 Proof.
-  intros b u acts s s' G U R E. change (cfg_of gc_sweep) with full in *.
+  intros b u acts s s' G U R E. change (cfg_of gc_sweep gc_recheck_unconditional) with full in *.
   apply gc_delete_invisible; auto. apply (inv_run acts _ _ (inv_init b u G U) R).
 Qed.
 Print Assumptions C08_gc_delete_invisible.
@@ -149,12 +149,12 @@ Theorem C08_gc_spares_pending_writes :
   forall (b : bstore) (u : list gen) (acts : list action) (s s' : sys) (q : pend),
     (forall k, rd_good (kread k b) = true) ->
     (forall k g, bget b (PGen k g) <> None -> In g u) ->
-    run (cfg_of gc_sweep) (mkSys b [] u [] [] None) acts = Some s ->
-    exec (cfg_of gc_sweep) s AGcDelete = Some s' ->
+    run (cfg_of gc_sweep gc_recheck_unconditional) (mkSys b [] u [] [] None []) acts = Some s ->
+    exec (cfg_of gc_sweep gc_recheck_unconditional) s AGcDelete = Some s' ->
     In q (pends s) -> p_wrote q = true ->
     bget (st s') (PGen (p_key q) (p_gen q)) = Some (OPay (p_val q)).
 Proof.
-  intros b u acts s s' q G U R E Hq W. change (cfg_of gc_sweep) with full in *.
+  intros b u acts s s' q G U R E Hq W. change (cfg_of gc_sweep gc_recheck_unconditional) with full in *.
   apply (gc_spares_pending s s' q); auto. apply (inv_run acts _ _ (inv_init b u G U) R).
 Qed.
 Print Assumptions C08_gc_spares_pending_writes.
@@ -166,14 +166,14 @@ Definition refute_trace : list action :=
    ACommit "a" "g1"; AGcDelete].
 
 Theorem C08_gc_without_inflight_refuted :
-  exists acts s, run (mkCfg false true) (mkSys [] [] [] [] [] None) acts = Some s /\
+  exists acts s, run (mkCfg false true false) (mkSys [] [] [] [] [] None []) acts = Some s /\
                  kread "a" (st s) = RDangling.
 Proof. exists refute_trace. eexists. split; vm_compute; reflexivity. Qed.
 Print Assumptions C08_gc_without_inflight_refuted.
 
 (* the same schedule with the guard in place: the collector skips the candidate *)
 Example C08_gc_guard_nonvacuous :
-  exists s, run (cfg_of gc_sweep) (mkSys [] [] [] [] [] None)
+  exists s, run (cfg_of gc_sweep gc_recheck_unconditional) (mkSys [] [] [] [] [] None [])
                 [AStart "a" "g1" (1, 1)%N 1%N; AWrite "a" "g1" None; AGcList [PGen "a" "g1"]; AGcCheck;
                  ACommit "a" "g1"; AGcCheck; ADrop "a" "g1"] = Some s /\
             kread "a" (st s) = RVal (1, 1)%N 1%N /\ gcs s = None.
@@ -181,7 +181,7 @@ Proof. eexists. split; [vm_compute; reflexivity|]. split; vm_compute; reflexivit
 
 (* the re-check is necessary as well: the candidate list is a stale snapshot *)
 Theorem C08_gc_without_recheck_refuted :
-  exists acts s, run (mkCfg true false) (mkSys [] [] [] [] [] None) acts = Some s /\
+  exists acts s, run (mkCfg true false false) (mkSys [] [] [] [] [] None []) acts = Some s /\
                  kread "a" (st s) = RDangling.
 Proof.
   exists [AStart "a" "g1" (1, 1)%N 1%N; AWrite "a" "g1" None; ACommit "a" "g1"; ADrop "a" "g1";
@@ -189,6 +189,27 @@ Proof.
   eexists. split; vm_compute; reflexivity.
 Qed.
 Print Assumptions C08_gc_without_recheck_refuted.
+
+(* and the re-check must not be skipped for "orphans" (candidates whose key had no commit point in the mark
+   snapshot): a key created between the mark phase and the sweep — its writer has committed and released
+   its registration by then — would lose its payload.  Both guards are on; only the exemption differs. *)
+Theorem C08_gc_orphan_skip_refuted :
+  exists acts s, run (mkCfg true true true) (mkSys [] [] [] [] [] None []) acts = Some s /\
+                 kread "a" (st s) = RDangling /\ infl s = [] /\ pends s = [].
+Proof.
+  exists [AStart "a" "g1" (1, 1)%N 1%N; AGcMark; AWrite "a" "g1" None; ACommit "a" "g1"; ADrop "a" "g1";
+          AGcList [PGen "a" "g1"]; AGcCheck; AGcRecheck; AGcDelete].
+  eexists. split; [vm_compute; reflexivity|]. split; [vm_compute; reflexivity|]. split; reflexivity.
+Qed.
+Print Assumptions C08_gc_orphan_skip_refuted.
+
+(* the same schedule under the code's configuration: the re-check sees the new commit point and skips *)
+Example C08_gc_orphan_recheck_nonvacuous :
+  exists s, run (cfg_of gc_sweep gc_recheck_unconditional) (mkSys [] [] [] [] [] None [])
+                [AStart "a" "g1" (1, 1)%N 1%N; AGcMark; AWrite "a" "g1" None; ACommit "a" "g1"; ADrop "a" "g1";
+                 AGcList [PGen "a" "g1"]; AGcCheck; AGcRecheck] = Some s /\
+            kread "a" (st s) = RVal (1, 1)%N 1%N /\ gcs s = Some ([], GA).
+Proof. eexists. split; [vm_compute; reflexivity|]. split; vm_compute; reflexivity. Qed.
 
 (* ---- non-vacuity: a concrete overwrite of a legacy (pre-0.10) object, crash points included *)
 Definition ex_store : bstore :=
